@@ -55,7 +55,7 @@ def run(chk):
     chk.rule("C08-D1.store", "every public TasmanianSparseGrid method with a level-limits parameter stores it into the member llimits: unconditionally in make*, "
                              "only when non-empty elsewhere (limits persist across calls that pass none)")
     chk.rule("C08-D1.forward", "every call from TasmanianSparseGrid into a grid class passes the *member* llimits at each limits position (positions inferred by "
-                               "inter-procedural flow from llimits), after it was updated")
+                               "inter-procedural flow from llimits), after it was updated; a method that stores its limits argument unconditionally may pass that argument itself")
     chk.rule("C08-D1.thread", "inside the grid classes a limits parameter is never replaced by something else when calling on to a function that takes limits, and is never unused")
     chk.rule("C08-D1.variant", "a <true>/<false> (limited / unlimited) template variant is chosen exactly on the false / true edge of limits.empty()")
     chk.rule("C08-D2.sentinel", "every read of a limits element (v[j], *it) other than the -1 test itself is control-dependent on a test establishing element != -1 on the same element")
@@ -144,6 +144,11 @@ def run(chk):
                 c = carrier(args[pi])
                 ok = c == ("field", LLIMITS)
                 detail = "passes %s" % txt(args[pi])
+                if not ok and k in sources and c == ("var", fn.params()[sources[k][0]]["did"]) and not list(cond_edges_dominating(fn, sources[k][1], skip_bailouts=True)):
+                    # the argument that this very method stores unconditionally as the new limits *is* the effective limits
+                    # (a factory may store it only after the grid was built, so that a failed make keeps no limits)
+                    ok = True
+                    detail += " (stored unconditionally into llimits by this method)"
                 if ok and k in sources:
                     # the store must dominate the forwarding call or be on a branch that rejoins before it
                     ab = fn.cfg.block_of(sources[k][1])
